@@ -2,6 +2,7 @@ import RSV.Props.C04
 import RSV.Props.C17leo
 import RSV.Props.C04gf8
 import RSV.Props.C04range
+import RSV.Props.C04gf16
 import RSV.Props.Consts
 /-!
 # C04 umbrella — Leopard Encode
